@@ -62,9 +62,12 @@ func cmdVerify(argv []string) {
 	var overlays multiFlag
 	fs.Var(&overlays, "overlay", "repo-file=replacement-file (verify a modified source without touching the repo)")
 	gnoDir := fs.String("gno", "", "verify a .gno package (directory under the repo) through the Gno front end")
+	tier := fs.String("tier", "quick", "quick: only the sampled cases of `split` clauses; thorough: all cases")
+	workers := fs.Int("j", 8, "parallel solver jobs")
 	fs.Parse(argv)
 	t0 := time.Now()
 	e := newEngine(*repo)
+	e.tier = *tier
 	pats := fs.Args()
 	for _, ov := range overlays {
 		kv := strings.SplitN(ov, "=", 2)
@@ -142,7 +145,7 @@ func cmdVerify(argv []string) {
 		}
 		return
 	}
-	solveAll(vcs, solveCfg{dir: dir, quickS: 2, fullS: *tmo, workers: 8})
+	solveAll(vcs, solveCfg{dir: dir, quickS: 2, fullS: *tmo, workers: *workers})
 	bad := 0
 	for _, fr := range frs {
 		if fr.Err != "" {
